@@ -95,8 +95,18 @@ var perturbDriver = driver.NewPostgresDriver()
 // and inputs the current check does not: whatever they leave behind in the library is then
 // seen by the next cases' oracles. Their own outcome is not judged here.
 func perturb(c *core.Ctx) {
-	defer func() { _ = recover() }()
 	c.Count("perturbation_calls", 1)
+	if core.CallGuard != nil {
+		// step-sanitizer build (C01): these calls are judged like any other - under the step
+		// budget, a panic or an endless loop in one of them is a finding
+		c.Call("perturbation call", func() { perturbCall(c) })
+		return
+	}
+	defer func() { _ = recover() }()
+	perturbCall(c)
+}
+
+func perturbCall(c *core.Ctx) {
 	switch (c.Index() / 8) % 14 {
 	case 0:
 		_, _ = lucene.ToPostgres("f:(\"it\" OR \"b\x00\")")
